@@ -13,6 +13,13 @@ def run(rep: Report, repo: Repo, tier: str) -> None:
     bindings.rule_signature_bindings(rep, repo, "C03-R2")
     render.rule_signature_template(rep, repo, "C03-R3")
     tables.rule_strip_options_exist(rep, repo, "C03-R4")
+    tables.rule_settings_plain(rep, repo, "C03-R4s")
+    from . import writer_rules
+    # the signature is a directive argument: it must reach the text as written
+    writer_rules.rule_values_verbatim(rep, repo, "C03-R5")
+    # the trigger string / strip patterns in effect are the configured ones: no CLI default may shadow them
+    from .c16 import rule_cli_defaults
+    rule_cli_defaults(rep, repo, "C03-R6")
     if tier == "thorough":
         from . import trace_rules
         trace_rules.rule_kwargs_traces(rep, repo, "C03-I")
